@@ -39,6 +39,10 @@ CHECKS = {
          "Hostile clients send seeded mutations of valid frames (bit flips, truncation, declared lengths up to 16 MiB, wrong opcode/direction/version bytes, hostile strings in query text, PREPARE keyspace, STARTUP options and batch children) and hostile backend nodes answer with wrong streams, wrong opcodes, short or unknown bodies, duplicate replies, garbage, UNPREPARED for cached ids (also to heartbeats) and garbage events; no SUT goroutine may panic (captured per task, as it would kill the real process), nothing may deadlock or spin, and a well-behaved canary connection keeps getting exactly one correct answer per request from the healthy host.", "§7 C17"),
  "C18": ("deterministic simulation in a -race build: the scenario families of C01/C02/C07/C08/C14/C16 under the token scheduler with the scheduler's own hand-offs hidden from the detector; Go race detector reports keyed by the pair of cql-proxy access sites",
          "The same seeded scenario families run in a -race build of the instrumented proxy in which every simulator hand-off is wrapped in RaceDisable/RaceEnable and simulator code is norace, while each sim lock takes the real lock it replaces: the detector therefore sees exactly the program's own happens-before edges and reports every pair of conflicting accesses they leave unordered, on code paths (simultaneous connection loss, concurrent session creation, event fan-out, retries) that the scheduler reaches deliberately. Reports whose innermost non-library frame is harness code are ignored.", "§7 C18, §3.7"),
+ "C19": ("deterministic simulation with Byzantine TLS peers and a controlled clock: real astra bundle loading/resolver/TLS configuration against fake metadata service and SNI proxy presenting each certificate-chain kind, certificates minted relative to the simulated clock (including expiry during the run)",
+         "A secure-connect bundle is built in memory and loaded with the real loader; the real resolver and proxy connect over simulated TCP to a fake metadata service and a fake SNI proxy (crypto/tls servers run as sim tasks) that present each of: valid leaf, other CA, self-signed, wrong DNS name, expired, not yet valid, intermediate present/missing, no certificate, and a leaf that expires while the run's clock advances; the handshake must be accepted exactly when the chain verifies against the bundle CA for the bundle host at the simulated time, rejected servers receive zero application bytes, accepted ones see the bundle's client certificate and the node's host id (or the bundle host) as SNI.", "§7 C19"),
+ "C20": ("deterministic simulation of the real entry point: proxy.Run booted in the simulated world under enumerated flags / environment variables / YAML files against a backend that supports every version of its family; exit code, first STARTUP version, client gate and override level observed on the wire",
+         "The real proxy.Run is started as a sim task with systematically enumerated configurations (every spelling of protocol-version and max-protocol-version in several letter cases, all 25 version/max pairs, all 11x11 consistency name pairs, numeric/duration boundaries, unknown names, missing backend, peers/tokens inconsistencies) delivered by flag, environment variable or YAML file; invalid ones must make Run return non-zero without serving, valid ones must serve with the named version in the first STARTUP a fully capable backend sees, gate clients exactly at the named maximum, apply the named override level, and return 0 on shutdown.", "§7 C20"),
 }
 
 NOT_APPLICABLE = {
